@@ -1,0 +1,18 @@
+package pugjs
+
+import (
+	"testing"
+
+	"flamingo.me/flamingo/v3/framework/flamingo"
+	"github.com/stretchr/testify/assert"
+)
+
+// a string literal written as text must not form a template delimiter, alone or with what follows
+func TestJsExprStringLiteralWithBraces(t *testing.T) {
+	var s = newRenderState("/", true, nil, flamingo.NullLogger{})
+
+	assert.Equal(t, `a{{"{"}}`, s.JsExpr(`"a{"`, true, false))
+	assert.Equal(t, `a{{"{{"}}b{{"}}"}}`, s.JsExpr(`"a{{b}}"`, true, false))
+	assert.Equal(t, `"a{{b}}"`, s.JsExpr(`"a{{b}}"`, false, false))
+	assert.Equal(t, `test`, s.JsExpr(`"test"`, true, false))
+}
